@@ -1,7 +1,7 @@
 (** Properties_C16.v — C16: wire primitives round-trip exactly and reject what they
     cannot represent.  Statements only; each is closed by [exact] of a lemma proved in
     the *Proofs.v files. *)
-From GW Require Import Base Wire WireProofs.
+From GW Require Import Base Wire WireProofs Civil CivilSweep CivilProofs.
 Local Open Scope Z_scope.
 
 (** ** Depth (0, 1, infinity) *)
@@ -89,3 +89,78 @@ Theorem C16_status_rejects_refuted : exists b,
   /\ status_unmarshal status_zero b = Ok status_zero /\ status_den b = None.
 Proof. exact status_rejects_refuted. Qed.
 Print Assumptions C16_status_rejects_refuted.
+
+(** ** Instants: the calendar arithmetic *)
+
+(** day number -> (year, month, day) -> day number is the identity on ALL days, and
+    the date produced is a valid one *)
+Theorem C16_civil_days_date_days : forall d0,
+  let '(y, m, d) := abs_date d0 in date_to_days y m d = d0 /\ date_valid y m d = true.
+Proof. exact abs_date_inverse. Qed.
+Print Assumptions C16_civil_days_date_days.
+
+(** (year, month, day) -> day number -> (year, month, day) is the identity on ALL valid dates *)
+Theorem C16_civil_date_days_date : forall y m d, date_valid y m d = true ->
+  abs_date (date_to_days y m d) = (y, m, d).
+Proof. exact date_to_days_inverse. Qed.
+Print Assumptions C16_civil_date_days_date.
+
+(** the model's day count is the closed-form count of the Gregorian rules *)
+Theorem C16_civil_days_spec : forall y m d, 1 <= m <= 12 -> date_to_days y m d = spec_days y m d.
+Proof. exact date_to_days_spec. Qed.
+Print Assumptions C16_civil_days_spec.
+
+(** ** HTTP date (internal.Time) *)
+
+(** any instant of the years 0..9999, to the second, given in any zone *)
+Theorem C16_httpdate_roundtrip : forall secs off, 0 <= year_of_unix secs <= 9999 ->
+  time_unmarshal (time_marshal (secs, off)) = Ok (secs, 0).
+Proof. exact time_roundtrip. Qed.
+Print Assumptions C16_httpdate_roundtrip.
+
+(** the text sent is an IMF-fixdate of RFC 7231 7.1.1.1 denoting the instant *)
+Theorem C16_httpdate_marshal_in_grammar : forall secs off, 0 <= year_of_unix secs <= 9999 ->
+  den_imf (time_marshal (secs, off)) = Some secs.
+Proof. exact http_marshal_in_grammar. Qed.
+Print Assumptions C16_httpdate_marshal_in_grammar.
+
+Theorem C16_httpdate_never_panics : forall s, time_unmarshal s <> Panic.
+Proof. exact time_unmarshal_never_panics. Qed.
+Print Assumptions C16_httpdate_never_panics.
+
+(** rejection side, except the listed finding C16-httpdate-lenient ... *)
+Theorem C16_httpdate_rejects_except_lenient : forall s t ns,
+  kf_httpdate_lenient s (obs_of (time_unmarshal s)) = false ->
+  time_unmarshal s = Ok (t, ns) -> exists t', http_den s = Some t'.
+Proof. exact time_rejects_except_lenient. Qed.
+Print Assumptions C16_httpdate_rejects_except_lenient.
+
+(** ... which is real *)
+Theorem C16_httpdate_rejects_refuted : exists s v,
+  time_unmarshal s = Ok v /\ http_den s = None
+  /\ kf_httpdate_lenient s (obs_of (time_unmarshal s)) = true.
+Proof. exact time_rejects_refuted. Qed.
+Print Assumptions C16_httpdate_rejects_refuted.
+
+(** ** iCalendar UTC date-time (caldav.dateWithUTCTime) *)
+
+Theorem C16_icaldate_roundtrip : forall secs off, 0 <= year_of_unix secs <= 9999 ->
+  icaldate_unmarshal (icaldate_marshal (secs, off)) = Ok (secs, 0).
+Proof. exact icaldate_roundtrip. Qed.
+Print Assumptions C16_icaldate_roundtrip.
+
+Theorem C16_icaldate_marshal_in_grammar : forall secs off, 0 <= year_of_unix secs <= 9999 ->
+  ical_den (icaldate_marshal (secs, off)) = Some secs.
+Proof. exact ical_marshal_in_grammar. Qed.
+Print Assumptions C16_icaldate_marshal_in_grammar.
+
+(** the decoder accepts exactly RFC 5545 form 2 (valid calendar date, 00-23, 00-59,
+    00-59), with the instant it denotes and no sub-second part *)
+Theorem C16_icaldate_accepts_iff_grammar : forall s t ns,
+  icaldate_unmarshal s = Ok (t, ns) <-> (ical_den s = Some t /\ ns = 0).
+Proof. exact icaldate_unmarshal_iff. Qed.
+Print Assumptions C16_icaldate_accepts_iff_grammar.
+
+Theorem C16_icaldate_never_panics : forall s, icaldate_unmarshal s <> Panic.
+Proof. exact icaldate_unmarshal_never_panics. Qed.
+Print Assumptions C16_icaldate_never_panics.
